@@ -110,7 +110,19 @@ def gather(topo, obs, hist_size, extra_events=None):
     for o in obs:
         q = by_port.get(o.pop("sport", None))
         o["id"] = q.pop(0) if q else -1
-        lines.append(o)
+    # an observation about a connection goes right behind that connection's last lifecycle event (its drop): the search
+    # then settles what kind of failure it was at once instead of carrying every possibility to the end of the trace
+    by_id = {}
+    for o in obs:
+        by_id.setdefault(o["id"], []).append(o)
+    placed = []
+    for ln in lines:
+        placed.append(ln)
+        if ln.get("ev") == "drop" and ln.get("id") in by_id:
+            placed.extend(by_id.pop(ln["id"]))
+    for rest in by_id.values():
+        placed.extend(rest)
+    lines = placed
     return lines, by_port, trace
 
 
